@@ -5,6 +5,7 @@ package storage
 import (
 	"context"
 	"fmt"
+	"strings"
 	"testing"
 
 	"github.com/KafScale/platform/pkg/cache"
@@ -29,13 +30,23 @@ func TestVF_C04_Progress(t *testing.T) {
 		interval := rapid.SampledFrom([]int32{1, 10, 100}).Draw(t, "interval")
 		nb := rapid.IntRange(3, 60).Draw(t, "batches")
 		flushEvery := rapid.SampledFrom([]int{1000, 1000, 7, 20}).Draw(t, "flushEvery")
-		path := rapid.SampledFrom([]string{"cached", "cold-range", "cache-off", "buffered-tail"}).Draw(t, "path")
+		path := rapid.SampledFrom([]string{"cached", "cold-range", "cache-off", "buffered-tail", "cold-hole"}).Draw(t, "path")
 		// buffered-tail: the second half of the batches is never flushed and is served from
 		// the write buffer (what a consumer sees with acks=0 / flush-on-ack off)
 		firstBuffered := nb
 		if path == "buffered-tail" {
 			firstBuffered = nb / 2
 		}
+		// cold-hole: a middle segment (both objects) is gone from S3 when the log is re-opened
+		// (retention, manual clean-up): offsets inside it fall in a gap and the answer must
+		// start at the first batch after the gap
+		if path == "cold-hole" {
+			if nb < 6 {
+				nb = 6
+			}
+			flushEvery = rapid.IntRange(1, nb/3).Draw(t, "flushEveryHole")
+		}
+		var segFirst []int // index of the first batch of every flushed segment
 		obj := vfkit.NewObjStore()
 		mk := func(start int64, cacheOn bool) *PartitionLog {
 			var c *cache.SegmentCache
@@ -63,6 +74,9 @@ func TestVF_C04_Progress(t *testing.T) {
 				t.Fatalf("harness: append: %v", err)
 			}
 			ref.add(res.BaseOffset, recs, raw)
+			if segStart {
+				segFirst = append(segFirst, i)
+			}
 			if segStart || sinceEntry >= interval {
 				indexed[i] = true
 				sinceEntry = 0
@@ -82,8 +96,19 @@ func TestVF_C04_Progress(t *testing.T) {
 				t.Fatalf("harness: flush: %v", err)
 			}
 		}
-		if path == "cold-range" || path == "cache-off" {
-			plog = mk(ref.end(), path == "cold-range")
+		holeLo, holeHi := -1, -1 // batch indices [holeLo, holeHi) are in the removed segment
+		if path == "cold-hole" && len(segFirst) >= 3 {
+			k := rapid.IntRange(1, len(segFirst)-2).Draw(t, "holeseg")
+			holeLo, holeHi = segFirst[k], segFirst[k+1]
+			base := ref.Batches[holeLo].Base
+			for _, key := range obj.Keys() {
+				if strings.Contains(key, fmt.Sprintf("segment-%020d.", base)) {
+					obj.Delete("delete", key)
+				}
+			}
+		}
+		if path == "cold-range" || path == "cache-off" || path == "cold-hole" {
+			plog = mk(ref.end(), path != "cache-off")
 			if _, err := plog.RestoreFromS3(ctx); err != nil {
 				t.Fatalf("restore failed: %v", err)
 			}
@@ -96,8 +121,17 @@ func TestVF_C04_Progress(t *testing.T) {
 			if path == "buffered-tail" && hi < firstBuffered && rapid.Bool().Draw(t, "intail") {
 				hi = firstBuffered + hi%(nb-firstBuffered)
 			}
+			if holeLo >= 0 && rapid.Bool().Draw(t, "inhole") {
+				hi = holeLo + hi%(holeHi-holeLo)
+			}
 			hb := ref.Batches[hi]
 			o := hb.Base + int64(rapid.IntRange(0, int(hb.Last-hb.Base)).Draw(t, "within"))
+			inHole := hi >= holeLo && hi < holeHi
+			if inHole {
+				// the offset is in the gap: the holder is the first batch after it
+				hi = holeHi
+				hb = ref.Batches[hi]
+			}
 			// distance from the preceding indexed batch start to this batch's start
 			lo := hi
 			for lo > 0 && !indexed[lo] {
@@ -135,7 +169,14 @@ func TestVF_C04_Progress(t *testing.T) {
 			if err != nil {
 				t.Fatalf("read(offset=%d,maxBytes=%d) below the end offset %d failed: %v (path %s, interval %d)", o, m, ref.end(), err, path, interval)
 			}
-			v3, v4, _, complete := c03CheckRead(ref, o, m, got)
+			oCheck := o
+			if inHole {
+				oCheck = hb.Base
+				st.Class("offset-in-gap")
+				nt = true
+				sample = append(sample, fmt.Sprintf("gap o=%d -> first batch after the gap at %d, m=%d got=%d", o, hb.Base, m, len(got)))
+			}
+			v3, v4, _, complete := c03CheckRead(ref, oCheck, m, got)
 			st.Class("path-" + path)
 			if complete {
 				st.Class("holder-batch-complete")
